@@ -1286,4 +1286,76 @@ theorem inv2_step (s : Sys) (a : Act) (s' : Sys) (h : Inv s) (h2 : Inv2 s) (hs :
                 simp only [DEvent.finished.injEq] at hh'
                 exact hji hh'.1.symm
 
+theorem inv12_run : ∀ (acts : List Act) (s s' : Sys), Inv s → Inv2 s → runActs s acts = some s' → Inv s' ∧ Inv2 s' := by
+  intro acts
+  induction acts with
+  | nil => intro s s' h h2 hr; simp only [runActs, Option.some.injEq] at hr; subst hr; exact ⟨h, h2⟩
+  | cons a as ih =>
+    intro s s' h h2 hr
+    simp only [runActs] at hr
+    split at hr
+    · cases hr
+    · rename_i s1 hs
+      exact ih s1 s' (inv_step s a s1 h hs) (inv2_step s a s1 h h2 hs) hr
+
+/-- the dispatcher handles the head of the channel without panicking -/
+theorem head_no_panic (s : Sys) (h : Inv s) (h2 : Inv2 s) (e : DEvent) (rest : List DEvent) (hch : s.chan = e :: rest) :
+    ∃ r, Dispatcher.step s.d e = .ok r := by
+  have hue : UnitEvent e := h.unitEv e (by rw [hch]; exact List.mem_cons_self ..)
+  have hcore : (∃ r, stepCore s.d e = .ok r) → ∃ r, Dispatcher.step s.d e = .ok r := by
+    rintro ⟨r, hr⟩
+    unfold Dispatcher.step
+    rw [hr]
+    exact ⟨_, rfl⟩
+  apply hcore
+  have hproj : ∀ u, mentions u e = true → proj u s.chan = e :: proj u rest := by
+    intro u hm; rw [hch, proj_cons, hm]; simp
+  rcases hue with ⟨i, rfl⟩ | ⟨i, a, t, rfl⟩ | ⟨i, r, sl, rfl⟩ | ⟨i, r, sl, rfl⟩
+  · -- Started: not yet in `running_tests`
+    have hp := h2.pat i
+    rw [hproj i (by simp [mentions])] at hp
+    obtain ⟨hph, _⟩ := (pat_head i _ _ _ hp).1 rfl
+    have hk := h2.k1 i (Or.inr hph)
+    simp only [stepCore]
+    split
+    · exact ⟨_, rfl⟩
+    · have : (s.d.running.any (·.1 == i)) = false := by
+        cases hh : s.d.running.any (·.1 == i) with
+        | false => rfl
+        | true => exact absurd hh hk
+      simp only [this, Bool.false_eq_true, if_false]
+      exact ⟨_, rfl⟩
+  · simp only [stepCore]; split <;> exact ⟨_, rfl⟩
+  · -- AttemptFailedWillRetry: the unit is between attempts, hence registered
+    have hp := h2.pat i
+    rw [hproj i (by simp [mentions])] at hp
+    have hph := (pat_head i _ _ _ hp).2.2.1 r sl rfl
+    have hreg : registered s.d i := by
+      rcases hph with ⟨hph, _⟩ | ⟨hph, _⟩
+      · exact h.reg i (Or.inr (Or.inl hph))
+      · exact h.reg i (Or.inr (Or.inr hph))
+    obtain ⟨x, hx⟩ := find_of_any _ _ hreg.1
+    simp only [stepCore, hx]
+    exact ⟨_, rfl⟩
+  · -- Finished: still in `running_tests`
+    have hp := h2.pat i
+    rw [hproj i (by simp [mentions])] at hp
+    obtain ⟨hph, _⟩ := (pat_head i _ _ _ hp).2.2.2 r sl rfl
+    have hk := h2.k2 i hph (by rw [hproj i (by simp [mentions])]; simp)
+    obtain ⟨x, hx⟩ := find_of_any _ _ hk
+    simp only [stepCore, hx]
+    split <;> exact ⟨_, rfl⟩
+
+/-- **the dispatcher never panics on what its units send**: whenever the channel is non-empty, `deliver` is enabled -/
+theorem deliver_enabled (s : Sys) (h : Inv s) (h2 : Inv2 s) (hne : s.chan ≠ []) : ∃ s', step s .deliver = some s' := by
+  cases hch : s.chan with
+  | nil => exact absurd hch hne
+  | cons e rest =>
+    obtain ⟨⟨d', o⟩, hr⟩ := head_no_panic s h h2 e rest hch
+    simp only [step, hch, hr]
+    split
+    · split <;> exact ⟨_, rfl⟩
+    · split <;> exact ⟨_, rfl⟩
+    · exact ⟨_, rfl⟩
+
 end NextestModel.System
